@@ -34,8 +34,13 @@ package main
 //   * every other call of a function that takes fuel hands on the caller's current `fuel`.
 //   So fuel bounds the nesting depth of iterations/recursive calls, not their total number; a run that ends with
 //   `ok`/`panic` is independent of the amount of fuel (proved for moveUp / moveDown in the tie module).
-// `for _, v := range s` is structural recursion over the elements of s (s evaluated once); no `break`/`continue`/
-// `return` inside it.  `return` inside a fuel loop is outside the fragment.
+// `for _, v := range s` is structural recursion over the elements of s (s evaluated once); no `break` inside it.
+// `return` INSIDE A LOOP (fuel loop or range loop): the loop's result is `Option ρ × S` — `(some r, _)` = the function
+// returned r (its results, then its writes) from inside the loop, `(none, s)` = the loop ended normally with state s;
+// after the loop the function returns r or goes on with s.  `continue` = the post statement, then the next iteration.
+// Further constructs shared with frag_more.go (documented there): tag `switch` as an if-chain, `append(a, b...)`,
+// `nil`/`[]T{}` as the empty array, `err != nil`, conversions between identical types, a writing call inside an
+// expression, function literals without parameters, `return &S{f: e, …}` as the tuple of S's modelled fields.
 // METHODS.  The modelled fields of the pointer receiver (all but `sync.*`) are variables `<recv>_<field>` and
 // parameters of every method.  WRITES: a function hands back, after its results, the receiver fields it (or a callee)
 // assigns — `h.f = e`, `h.f[i] = e`, `h.f` passed to a function that writes through that parameter — and the slice
@@ -98,7 +103,10 @@ def hCopy {α : Type} (dst src : Array α) : Array α :=
 type hvar struct{ name, typ string }
 
 type hloop struct {
-	breakTerm string
+	breakTerm string        // "" = break is not available (range loop)
+	cont      func() string // term for `continue` (the post statement, then the next iteration)
+	hasRet    bool          // the loop contains a `return`: its result is  Option ρ × S
+	state     []hvar
 }
 
 // hinfo: what a caller needs to know about a translated function
@@ -115,25 +123,33 @@ type hinfo struct {
 }
 
 type hctx struct {
-	f       *fn
-	info    *types.Info
-	name    string
-	recv    string
-	fields  []fieldVar
-	out     bool
-	needOut bool
-	fuel    bool
-	selfRec bool
-	err     string
-	aux     []string
-	nloop   int
-	ntmp    int
-	pre     []binding
-	scope   []hvar
-	loop    *hloop
-	inLoop  int
-	sum     *hsum
-	results []string
+	f        *fn
+	info     *types.Info
+	name     string
+	recv     string
+	fields   []fieldVar
+	out      bool
+	needOut  bool
+	fuel     bool
+	selfRec  bool
+	err      string
+	aux      []string
+	nloop    int
+	ntmp     int
+	pre      []binding
+	scope    []hvar
+	loop     *hloop
+	inLoop   int
+	sum      *hsum
+	results  []string
+	closure  *hclosure
+	hooks    *hhooks
+	closures map[string]*ast.FuncLit // parameterless function literals bound to a local (frag_more.go)
+}
+
+// hclosure: set while the body of a parameterless function literal is translated in place (frag_more.go)
+type hclosure struct {
+	typ string // Lean type of its result
 }
 
 // hsum: the static summary of a function of the package
@@ -344,7 +360,14 @@ func buildHeapSummaries(pkgName string) {
 func (c *hctx) leanType(t types.Type) string {
 	switch x := t.(type) {
 	case *types.TypeParam:
+		if c.hooks != nil && isNumericParam(x) {
+			return "Int" // instantiated at int (frag_more.go)
+		}
 		return "α"
+	case *types.Pointer:
+		if ts, ok := c.structFieldTypes(x); ok {
+			return typeTuple(ts) // a NEW object of a struct type of the package: the tuple of its modelled fields
+		}
 	case *types.Basic:
 		switch {
 		case x.Info()&types.IsBoolean != 0:
@@ -526,6 +549,9 @@ func (c *hctx) isInt(e ast.Expr) bool {
 	if t == nil {
 		return false
 	}
+	if tp, ok := t.(*types.TypeParam); ok {
+		return c.hooks != nil && isNumericParam(tp)
+	}
 	b, ok := t.Underlying().(*types.Basic)
 	return ok && b.Info()&types.IsInteger != 0
 }
@@ -538,6 +564,15 @@ func (c *hctx) cond(e ast.Expr) string {
 	if b, ok := e.(*ast.BinaryExpr); ok {
 		switch b.Op {
 		case token.LSS, token.LEQ, token.GTR, token.GEQ, token.EQL, token.NEQ:
+			if b.Op == token.EQL || b.Op == token.NEQ {
+				// err != nil / err == nil: an error value is the flag "non-nil"
+				if id, ok := b.Y.(*ast.Ident); ok && id.Name == "nil" && c.typeOf(b.X) != nil && c.typeOf(b.X).String() == "error" {
+					if b.Op == token.NEQ {
+						return c.expr(b.X) + " = true"
+					}
+					return c.expr(b.X) + " = false"
+				}
+			}
 			op := map[token.Token]string{token.LSS: "<", token.LEQ: "≤", token.GTR: ">", token.GEQ: "≥", token.EQL: "=", token.NEQ: "≠"}[b.Op]
 			if (b.Op == token.EQL || b.Op == token.NEQ) || (c.isInt(b.X) && c.isInt(b.Y)) {
 				l := c.expr(b.X)
@@ -563,6 +598,11 @@ func (c *hctx) expr(e ast.Expr) string {
 		case "true", "false":
 			if _, isConst := c.info.ObjectOf(x).(*types.Const); isConst {
 				return x.Name
+			}
+		}
+		if _, isNil := c.info.ObjectOf(x).(*types.Nil); isNil {
+			if _, isSlice := c.typeOf(x).Underlying().(*types.Slice); isSlice {
+				return c.zero(c.typeOf(x)) // a nil slice is the empty slice (len 0); nil-ness itself is not modelled
 			}
 		}
 		if _, isVar := c.info.ObjectOf(x).(*types.Var); isVar {
@@ -642,10 +682,32 @@ func (c *hctx) expr(e ast.Expr) string {
 			hi = c.expr(x.High)
 		}
 		return c.partial("hSlice " + s + " " + lo + " " + hi)
+	case *ast.CompositeLit:
+		if _, isSlice := c.typeOf(x).Underlying().(*types.Slice); isSlice && len(x.Elts) == 0 {
+			return c.zero(c.typeOf(x)) // []T{}
+		}
+		return c.fail("composite literal")
 	case *ast.CallExpr:
+		if tv, ok := c.info.Types[x.Fun]; ok && tv.IsType() && len(x.Args) == 1 {
+			// conversion T(e): the identity when both sides are the same Lean type (integer ↔ integer: wrap-around is not modelled)
+			if from, to := c.leanType(c.typeOf(x.Args[0])), c.leanType(tv.Type); from == to && (to == "Int" || to == "α") {
+				return c.expr(x.Args[0])
+			}
+			return c.fail("conversion")
+		}
+		if id, ok := x.Fun.(*ast.Ident); ok && c.closures[id.Name] != nil && len(x.Args) == 0 {
+			return c.callClosure(id.Name)
+		}
 		term, isOut, info := c.call(x)
 		if c.err != "" {
 			return "sorryUnsupported"
+		}
+		if info != nil && info.nres == 1 && len(info.wfields)+len(info.wparams) != 0 && isOut {
+			// a call that writes, inside an expression: the written variables are rebound where Go evaluates the call
+			c.ntmp++
+			n := fmt.Sprintf("t%d_", c.ntmp)
+			c.pre = append(c.pre, binding{c.callPattern(x, info, []string{n}), term})
+			return n
 		}
 		if info != nil && (info.nres != 1 || len(info.wfields)+len(info.wparams) != 0) {
 			return c.fail("call of %s (results %d, writes) inside an expression", info.lean, info.nres)
@@ -661,7 +723,19 @@ func (c *hctx) expr(e ast.Expr) string {
 // call translates a call; info is nil for builtins and calls through function values.
 func (c *hctx) call(x *ast.CallExpr) (term string, isOut bool, info *hinfo) {
 	if x.Ellipsis != token.NoPos {
-		return c.fail("call with ..."), false, nil
+		// append(a, b...) = a ++ b (value level);  f(xs...) with f variadic hands the slice xs on as it is
+		if id, ok := x.Fun.(*ast.Ident); ok && id.Name == "append" && len(x.Args) == 2 {
+			if _, isBuiltin := c.info.ObjectOf(id).(*types.Builtin); isBuiltin {
+				a := c.expr(x.Args[0])
+				b := c.expr(x.Args[1])
+				return "(" + a + " ++ " + b + ")", false, nil
+			}
+		}
+		if g := calleeOf(c.f, x); g == nil || hSums[g] == nil || !g.Type().(*types.Signature).Variadic() {
+			return c.fail("call with ..."), false, nil
+		}
+	} else if g := calleeOf(c.f, x); g != nil && hSums[g] != nil && g.Type().(*types.Signature).Variadic() {
+		return c.fail("call of a variadic function with listed arguments"), false, nil
 	}
 	// builtins
 	if id, ok := x.Fun.(*ast.Ident); ok {
@@ -842,7 +916,84 @@ func (c *hctx) retTerm(vals []string) string {
 	for _, w := range c.writeVars() {
 		vals = append(vals, w.name)
 	}
-	return c.okv(tupleOf(vals))
+	return c.returnTerm(tupleOf(vals))
+}
+
+// retType: the type ρ of what the function hands back (results, then writes), without `Out`
+func (c *hctx) retType() string {
+	if c.closure != nil {
+		return c.closure.typ
+	}
+	ts := append([]string{}, c.results...)
+	for _, w := range c.writeVars() {
+		ts = append(ts, w.typ)
+	}
+	return typeTuple(ts)
+}
+
+// returnTerm: the function returns the tuple v.  Inside a loop the iteration ends with `(some v, state)`.
+func (c *hctx) returnTerm(v string) string {
+	if c.loop != nil {
+		if !c.loop.hasRet {
+			return c.fail("internal: return inside a loop not marked as returning")
+		}
+		return c.okv("(some " + v + ", " + tupleOf(names(c.loop.state)) + ")")
+	}
+	return c.okv(v)
+}
+
+// loopEnd: the loop ends normally (condition false, break, end of the ranged slice) with the current state
+func (c *hctx) loopEnd(state []hvar, hasRet bool) string {
+	if hasRet {
+		return c.okv("(none, " + tupleOf(names(state)) + ")")
+	}
+	return c.okv(tupleOf(names(state)))
+}
+
+func (c *hctx) loopType(state []hvar, hasRet bool) string {
+	t := typeTuple(typesOf(state))
+	if hasRet {
+		t = "(Option " + c.retType() + " × " + t + ")"
+	}
+	return t
+}
+
+// afterLoop: run the loop `call`, rebind its state, go on with rest; a loop that returned ends the function
+func (c *hctx) afterLoop(call string, state []hvar, hasRet bool, rest func() string) string {
+	pat := tupleOf(names(state))
+	if len(state) == 0 {
+		pat = "_"
+	}
+	if !hasRet {
+		return c.bind(call, c.out, pat, rest())
+	}
+	lets := ""
+	for i, v := range state {
+		proj := "r_.2" + strings.Repeat(".2", i)
+		if i < len(state)-1 {
+			proj += ".1"
+		}
+		lets += "let " + v.name + " := " + proj + "\n"
+	}
+	body := "match r_.1 with\n| some ret_ => " + c.returnTerm("ret_") + "\n| none =>\n" + indent(lets+rest(), 2)
+	if c.out {
+		return "(Out.bind (" + call + ") fun r_ =>\n" + indent(body, 2) + ")"
+	}
+	return "let r_ := " + call + "\n" + body
+}
+
+func containsReturn(n ast.Node) bool {
+	found := false
+	ast.Inspect(n, func(m ast.Node) bool {
+		switch m.(type) {
+		case *ast.FuncLit:
+			return false
+		case *ast.ReturnStmt:
+			found = true
+		}
+		return true
+	})
+	return found
 }
 
 // callPattern: the pattern that binds the result of a call with writes: result names, then the written variables
@@ -1038,11 +1189,13 @@ func (c *hctx) condSplit(e ast.Expr, T, E string) string {
 // hasPartial: translating e registers a partial operation (tried on a scratch copy of the counters)
 func (c *hctx) hasPartial(e ast.Expr) bool {
 	savedPre, savedTmp, savedErr, savedNeed, savedOut := c.pre, c.ntmp, c.err, c.needOut, c.out
+	savedAux, savedNloop := c.aux, c.nloop
 	c.pre = nil
 	c.out = true
 	c.expr(e)
 	has := len(c.pre) != 0
 	c.pre, c.ntmp, c.err, c.needOut, c.out = savedPre, savedTmp, savedErr, savedNeed, savedOut
+	c.aux, c.nloop = savedAux[:len(savedAux):len(savedAux)], savedNloop
 	if has && !c.out {
 		c.needOut = true
 	}
@@ -1088,10 +1241,15 @@ func (c *hctx) stmts(list []ast.Stmt, k string) string {
 		}
 		return out + c.stmts(rest, k)
 	case *ast.ReturnStmt:
-		if c.inLoop > 0 {
-			return c.fail("return inside a loop")
-		}
 		var vals []string
+		if c.closure != nil {
+			if len(x.Results) != 1 {
+				return c.fail("return form in a function literal")
+			}
+			v := c.expr(x.Results[0])
+			pre := c.takePre()
+			return c.withPre(pre, c.returnTerm(v))
+		}
 		sig := c.f.obj.Type().(*types.Signature)
 		if len(x.Results) != sig.Results().Len() {
 			return c.fail("return with %d values for %d results", len(x.Results), sig.Results().Len())
@@ -1105,13 +1263,26 @@ func (c *hctx) stmts(list []ast.Stmt, k string) string {
 				}
 				continue
 			}
+			if id, ok := e.(*ast.Ident); ok && id.Name == "nil" {
+				if _, isSlice := sig.Results().At(i).Type().Underlying().(*types.Slice); isSlice {
+					vals = append(vals, c.zero(sig.Results().At(i).Type())) // a nil slice is the empty slice
+					continue
+				}
+			}
+			if fv, ok := c.newStruct(e); ok {
+				vals = append(vals, fv...)
+				continue
+			}
 			vals = append(vals, c.expr(e))
 		}
 		pre := c.takePre()
 		return c.withPre(pre, c.retTerm(vals))
 	case *ast.BranchStmt:
-		if x.Tok == token.BREAK && x.Label == nil && c.loop != nil {
+		if x.Tok == token.BREAK && x.Label == nil && c.loop != nil && c.loop.breakTerm != "" {
 			return c.loop.breakTerm
+		}
+		if x.Tok == token.CONTINUE && x.Label == nil && c.loop != nil && c.loop.cont != nil {
+			return c.loop.cont()
 		}
 		return c.fail("%s", x.Tok)
 	case *ast.ExprStmt:
@@ -1161,6 +1332,12 @@ func (c *hctx) stmts(list []ast.Stmt, k string) string {
 		return c.assign(x, rest, k)
 	case *ast.IfStmt:
 		return c.ifStmt(x, rest, k)
+	case *ast.SwitchStmt:
+		d := c.switchAsIf(x)
+		if d == nil {
+			return "sorryUnsupported"
+		}
+		return c.stmts(append([]ast.Stmt{d}, rest...), k)
 	case *ast.ForStmt:
 		return c.forStmt(x, rest, k)
 	case *ast.RangeStmt:
@@ -1186,6 +1363,12 @@ func (c *hctx) assign(x *ast.AssignStmt, rest []ast.Stmt, k string) string {
 	}
 	if x.Tok != token.ASSIGN && x.Tok != token.DEFINE {
 		return c.fail("assignment operator %s", x.Tok)
+	}
+	if y := c.assignHook(x); y != nil {
+		if y == x {
+			return c.stmts(rest, k)
+		}
+		x = y
 	}
 	// values of sync types are not modelled
 	if len(x.Lhs) == 1 && len(x.Rhs) == 1 && isSyncType(c.typeOf(x.Lhs[0])) {
@@ -1405,26 +1588,24 @@ func (c *hctx) forStmt(x *ast.ForStmt, rest []ast.Stmt, k string) string {
 	}
 	body := append([]ast.Stmt{}, x.Body.List...)
 	if x.Post != nil {
-		hasContinue := false
-		ast.Inspect(x.Body, func(n ast.Node) bool {
-			if b, ok := n.(*ast.BranchStmt); ok && b.Tok == token.CONTINUE {
-				hasContinue = true
-			}
-			return true
-		})
-		if hasContinue {
-			return c.fail("continue in a loop with a post statement")
-		}
 		body = append(body, x.Post)
 	}
 	state := c.assigned(body)
 	fixed := c.fixedVars(state)
+	hasRet := containsReturn(x.Body)
 	c.nloop++
 	lname := fmt.Sprintf("%s_loop%d", c.name, c.nloop)
-	stateT := typeTuple(typesOf(state))
+	stateT := c.loopType(state, hasRet)
 	recCall := strings.TrimSpace(lname + " " + strings.Join(names(fixed), " ") + " fuel " + strings.Join(names(state), " "))
 	savedLoop, savedScope := c.loop, append([]hvar{}, c.scope...)
-	c.loop = &hloop{breakTerm: "(Out.ok " + tupleOf(names(state)) + ")"}
+	c.loop = &hloop{breakTerm: c.loopEnd(state, hasRet), hasRet: hasRet, state: state}
+	post := x.Post
+	c.loop.cont = func() string {
+		if post != nil {
+			return c.block([]ast.Stmt{post}, recCall)
+		}
+		return recCall
+	}
 	c.inLoop++
 	var iter string
 	if x.Cond != nil {
@@ -1438,13 +1619,9 @@ func (c *hctx) forStmt(x *ast.ForStmt, rest []ast.Stmt, k string) string {
 		return "sorryUnsupported"
 	}
 	def := fmt.Sprintf("def %s %s %s (fuel : Nat) %s : Out %s :=\n  match fuel with\n  | 0 => Out.hang\n  | fuel + 1 =>\n%s\n",
-		lname, hImplicit, binders(fixed), binders(state), stateT, indent(iter, 4))
+		lname, c.implicits(), binders(fixed), binders(state), stateT, indent(iter, 4))
 	c.aux = append(c.aux, def)
-	pat := tupleOf(names(state))
-	if len(state) == 0 {
-		pat = "_"
-	}
-	return outMatch(recCall, pat, c.stmts(rest, k))
+	return c.afterLoop(recCall, state, hasRet, func() string { return c.stmts(rest, k) })
 }
 
 // rangeStmt: `for _, v := range s` as structural recursion over the elements.
@@ -1463,17 +1640,7 @@ func (c *hctx) rangeStmt(x *ast.RangeStmt, rest []ast.Stmt, k string) string {
 	if !isSlice {
 		return c.fail("range over a non-slice")
 	}
-	bad := false
-	ast.Inspect(x.Body, func(n ast.Node) bool {
-		switch n.(type) {
-		case *ast.ReturnStmt, *ast.BranchStmt:
-			bad = true
-		}
-		return true
-	})
-	if bad {
-		return c.fail("return/break/continue inside a range loop")
-	}
+	hasRet := containsReturn(x.Body)
 	seq := c.expr(x.X)
 	pre := c.takePre()
 	elemT := c.leanType(sl.Elem())
@@ -1496,7 +1663,7 @@ func (c *hctx) rangeStmt(x *ast.RangeStmt, rest []ast.Stmt, k string) string {
 	}
 	savedScope := append([]hvar{}, c.scope...)
 	savedLoop := c.loop
-	c.loop = nil
+	c.loop = &hloop{hasRet: hasRet, state: state, cont: func() string { return call("rest_") }}
 	c.inLoop++
 	c.declare(lv(vid.Name), elemT)
 	iter := c.block(x.Body.List, call("rest_"))
@@ -1505,19 +1672,15 @@ func (c *hctx) rangeStmt(x *ast.RangeStmt, rest []ast.Stmt, k string) string {
 	if c.err != "" {
 		return "sorryUnsupported"
 	}
-	stateT := typeTuple(typesOf(state))
+	stateT := c.loopType(state, hasRet)
 	resT := stateT
 	if c.out {
 		resT = "Out " + stateT
 	}
 	def := fmt.Sprintf("def %s %s %s%s %s (xs_ : List %s) : %s :=\n  match xs_ with\n  | [] => %s\n  | %s :: rest_ =>\n%s\n",
-		lname, hImplicit, binders(fixed), fuelBinder, binders(state), elemT, resT, c.okv(tupleOf(names(state))), lv(vid.Name), indent(iter, 4))
+		lname, c.implicits(), binders(fixed), fuelBinder, binders(state), elemT, resT, c.loopEnd(state, hasRet), lv(vid.Name), indent(iter, 4))
 	c.aux = append(c.aux, def)
-	pat := tupleOf(names(state))
-	if len(state) == 0 {
-		pat = "_"
-	}
-	return c.withPre(pre, c.bind(call(seq+".toList"), c.out, pat, c.stmts(rest, k)))
+	return c.withPre(pre, c.afterLoop(call(seq+".toList"), state, hasRet, func() string { return c.stmts(rest, k) }))
 }
 
 // ---------- functions ----------
@@ -1535,7 +1698,7 @@ func translateHeapFunc(s *hsum) *hinfo {
 	var c *hctx
 	body := ""
 	for _, mode := range []bool{false, true} {
-		c = &hctx{f: f, info: f.pkg.TypesInfo, name: s.key, sum: s, out: mode, fuel: s.fuel}
+		c = &hctx{f: f, info: f.pkg.TypesInfo, name: s.key, sum: s, out: mode, fuel: s.fuel, hooks: hHooks, closures: map[string]*ast.FuncLit{}}
 		if s.fuel && !mode {
 			continue
 		}
@@ -1579,6 +1742,8 @@ func translateHeapFunc(s *hsum) *hinfo {
 			}
 			if r.Type().String() == "error" {
 				c.results = append(c.results, "Bool")
+			} else if ts, ok := c.structFieldTypes(r.Type()); ok {
+				c.results = append(c.results, ts...)
 			} else {
 				c.results = append(c.results, c.leanType(r.Type()))
 			}
@@ -1637,7 +1802,7 @@ func translateHeapFunc(s *hsum) *hinfo {
 	if c.selfRec {
 		body = "match fuel with\n| 0 => Out.hang\n| fuel + 1 =>\n" + indent(body, 2)
 	}
-	fmt.Fprintf(hOut, "def %s %s%s %s : %s :=\n%s\n\n", s.key, hImplicit, fuelB, binders(c.scope), rt, indent(body, 2))
+	fmt.Fprintf(hOut, "def %s %s%s %s : %s :=\n%s\n\n", s.key, c.implicits(), fuelB, binders(c.scope), rt, indent(body, 2))
 	hDone[s.key] = r
 	return r
 }
@@ -1653,7 +1818,7 @@ func (c *hctx) retTermEnd() string {
 // heapFunctions lists what is regenerated from heap/heap.go, by key (`Type_method` or function name).
 var heapFunctions = []string{"swap", "Heap_parent", "Heap_leftChild", "Heap_rightChild", "Heap_size", "Heap_Size", "Heap_IsEmpty",
 	"Heap_Clear", "Heap_peek", "Heap_Peek", "Heap_GetValues", "Heap_moveUp", "Heap_moveDown", "Heap_Push", "Heap_Pop",
-	"Heap_getIndex", "Heap_Delete", "Heap_Convert", "FromSlice"}
+	"Heap_getIndex", "Heap_Delete", "Heap_Convert", "FromSlice", "Heap_Merge", "Heap_Meld"}
 
 func translateHeap() (string, map[string]string) {
 	status := map[string]string{}
